@@ -7,11 +7,12 @@ import json, os, queue, subprocess, sys, threading, shutil, hashlib
 
 VERIF = os.path.dirname(os.path.dirname(os.path.abspath(__file__)))
 lanes = int(sys.argv[1])
-names = sys.argv[2:]
 PROPS = ["C%02d" % i for i in range(1, 21)]
-q = queue.Queue()
-for n in names:
-    for p in PROPS:
+names, q = [], queue.Queue()
+for a in sys.argv[2:]:          # <name> or <name>:C01,C04,... (subset of properties)
+    n, _, sel = a.partition(":")
+    names.append(n)
+    for p in (sel.split(",") if sel else PROPS):
         q.put((n, p))
 results = {n: {} for n in names}
 lock = threading.Lock()
